@@ -263,7 +263,35 @@ def strict_merge(chk):
                         dict(kind='strict-merge', given=given, expected=expected))
 
 
+def streamed_merge(chk):
+  """The shard states of a chain with two aggregating stages arrive as a one-shot stream (the way the orchestration
+  feeds them): every aggregating stage has to see every state - with and without a strict count - and the merged
+  result equals the merge of the same states given as a list."""
+  for shards in (1, 2, 3):
+    n = 6
+    states = []
+    for i in range(shards):
+      it = lib.two_agg_pipeline(n, shard_index=i, num_shards=shards).make().iterate()
+      list(it)
+      states.append(it.agg_state)
+    runner = lib.two_agg_pipeline(n).make()
+    want = {k: sorted(v) for k, v in dict(runner.get_result(runner.merge_states(list(states)))).items()}
+    for strict in (0, shards):
+      kw = dict(strict_states_cnt=strict) if strict else {}
+      ctx = dict(kind='streamed-merge', shards=shards, strict=strict)
+      try:
+        got = {k: sorted(v) for k, v in dict(runner.get_result(runner.merge_states((s for s in states), **kw))).items()}
+      except Exception as e:  # pylint: disable=broad-exception-caught
+        chk.violation(f'streamed-merge:exception:{type(e).__name__}', f'{shards} shard states as a generator, strict_states_cnt={strict}: {e!r}', ctx)
+        continue
+      chk.replayed()
+      if got != want:
+        chk.violation('streamed-merge:result' + ('' if strict else ':no-strict-count'),
+                      f'{shards} shard states as a generator, strict_states_cnt={strict}: {got}; the same states as a list: {want}', ctx)
+
+
 def body(chk):
+  streamed_merge(chk)
   consts = dict(Tasks={'t1', 't2', 't3'}, Workers={'w1', 'w2'}, L=2, Budget=0, Threshold=0, UsableWorker='w1', RecheckDone=False)
   mc = tlc.run('dist', 'Sched', tlc.cfg_text(constants=consts, invariants=['FaultFreeExactlyOnce', 'StateAtMostOnce'],
                                              properties=['Termination']), timeout=1800, coverage=True)
